@@ -95,6 +95,10 @@ def h_make_metadata(n: int, ign0: bool, ign1: bool, obj0: bool, obj1: bool, obj2
             want_opt = c in has_nulls
         if (se.repetition_type == parquet_thrift.FieldRepetitionType.OPTIONAL) != want_opt:
             return False
+        # an enum of the IDL: the serialiser picks the wire type from the Python type (bool before int), so the value
+        # must be an integer, not a truth value that happens to equal one
+        if isinstance(se.repetition_type, bool) or not isinstance(se.repetition_type, int):
+            return False
     kv = {k.key: k.value for k in fmd.key_value_metadata}
     pm = json.loads(kv[b"pandas"])
     return ([c["name"] for c in pm["columns"]] == kept and [c["name"] for c in pm["partition_columns"]] == ignore and
@@ -125,6 +129,13 @@ def replay_h_make_metadata(n, ign0, ign1, obj0, obj1, obj2, in0, in1, in2, t96):
         if mode == 3:
             opt = c in has_nulls
         want.append((c, 1 if opt else 0))
+    kinds = sorted({type(b).__name__ for a, b in got})
+    if kinds not in (["int"], []):
+        from vf.pyshim import filecheck
+        raw = bytes(fmd.to_bytes())
+        bad = filecheck.idl_conformance("FileMetaData", raw)
+        return True, "make_metadata(has_nulls=%r) stores repetition_type as %r; the footer it serialises to: %s" % (
+            has_nulls, kinds, bad[0] if bad else "follows the IDL")
     got = [(a, 1 if b == 1 else 0) for a, b in got]
     pm = json.loads({k.key: k.value for k in fmd.key_value_metadata}[b"pandas"])
     if got != want or fmd.schema[0].num_children != len(kept) or [c["name"] for c in pm["columns"]] != kept:
